@@ -79,14 +79,16 @@ impl Ord for Time {
     fn cmp(&self, other: &Time) -> Ordering { unimplemented!() }
 }
 
-// std::cmp::min has no vstd specification (assumed: the std definition)
-pub assume_specification<T: Ord + core::marker::Destruct> [std::cmp::min] (a: T, b: T) -> (r: T)
-    ensures
-        T::obeys_cmp_spec() ==> r == (if b.cmp_spec(&a) == Ordering::Less { b } else { a }),
-;
-
+pub uninterp spec fn clock_reading(t: Time) -> bool;
+impl Time {
+    #[verifier::external_body]
+    pub fn now() -> (r: Time) ensures clock_reading(r), { unimplemented!() }
+}
 impl Validity {
     pub uninterp spec fn not_after_spec(&self) -> Time;
+    pub uninterp spec fn not_before_spec(&self) -> Time;
+    #[verifier::external_body]
+    pub fn not_before(self) -> (r: Time) ensures r == self.not_before_spec(), { unimplemented!() }
     #[verifier::external_body]
     pub fn not_after(self) -> (r: Time) ensures r == self.not_after_spec(), { unimplemented!() }
     #[verifier::external_body]
@@ -142,11 +144,18 @@ impl PublishInfo {
 
 // ---- manifest / CRL deadlines
 impl ManifestContent {
+    pub uninterp spec fn this_update_spec(&self) -> Time;
+    #[verifier::external_body]
+    pub fn this_update(&self) -> (r: Time) ensures r == self.this_update_spec(), { unimplemented!() }
+    #[verifier::external_body]
+    pub fn is_stale(&self) -> (r: bool) { unimplemented!() }
     pub uninterp spec fn next_update_spec(&self) -> Time;
     #[verifier::external_body]
     pub fn next_update(&self) -> (r: Time) ensures r == self.next_update_spec(), { unimplemented!() }
 }
 impl Crl {
+    #[verifier::external_body]
+    pub fn is_stale(&self) -> (r: bool) { unimplemented!() }
     pub uninterp spec fn next_update_spec(&self) -> Time;
     #[verifier::external_body]
     pub fn next_update(&self) -> (r: Time) ensures r == self.next_update_spec(), { unimplemented!() }
@@ -196,6 +205,31 @@ impl ProviderAsSet {
     pub fn to_set(&self) -> (r: SmallAsnSet) { unimplemented!() }
 }
 
+// crossbeam SegQueue::push through a shared reference: modelled as the monotone ghost fact
+// "this value was pushed to this queue"
+pub uninterp spec fn queue_pushed<T>(q: &SegQueue<T>, v: T) -> bool;
+impl<T> SegQueue<T> {
+    #[verifier::external_body]
+    pub fn push(&self, value: T) ensures queue_pushed(self, value), { unimplemented!() }
+}
+
+// ---- derived impls of extracted crate types (attributes are dropped by extraction)
+impl Clone for Failed { #[verifier::external_body] fn clone(&self) -> (r: Self) ensures r == *self, { unimplemented!() } }
+impl Copy for Failed {}
+impl Clone for FilterPolicy { #[verifier::external_body] fn clone(&self) -> (r: Self) ensures r == *self, { unimplemented!() } }
+impl Copy for FilterPolicy {}
+impl PartialEqSpecImpl for FilterPolicy {
+    open spec fn obeys_eq_spec() -> bool { true }
+    closed spec fn eq_spec(&self, other: &FilterPolicy) -> bool { *self == *other }
+}
+impl PartialEq for FilterPolicy {
+    #[verifier::external_body]
+    fn eq(&self, other: &Self) -> bool { unimplemented!() }
+}
+impl Eq for FilterPolicy {}
+impl Clone for PubPoint { #[verifier::external_body] fn clone(&self) -> (r: Self) ensures r == *self, { unimplemented!() } }
+impl<'a> Clone for PubPointProcessor<'a> { #[verifier::external_body] fn clone(&self) -> (r: Self) ensures r == *self, { unimplemented!() } }
+
 // ---- the engine's processing traits (crate::engine), declared here with the
 // methods this unit implements. The ghost supertrait carries the abstract
 // effect of point_validity so that the generic caller
@@ -211,6 +245,9 @@ pub trait ProcessPubPoint: Sized + ProcessPubPointSpec {
     fn process_roa(&mut self, uri: &RsyncUri, cert: ResourceCert, route: RouteOriginAttestation) -> Result<(), Failed>;
     fn process_aspa(&mut self, uri: &RsyncUri, cert: ResourceCert, aspa: AsProviderAttestation) -> Result<(), Failed>;
     fn restart(&mut self) -> Result<(), Failed>;
+    fn repository_index(&mut self, repository_index: usize);
+    fn want(&self, uri: &RsyncUri) -> Result<bool, Failed>;
+    fn commit(self);
 }
 pub trait ProcessRun: Sized {
     type PubPoint: ProcessPubPoint;
@@ -238,3 +275,66 @@ impl<'a> SnapshotBuilder<'a> {
         ensures final(self).refresh == old(self).refresh,
     { unimplemented!() }
 }
+// ---- std functions without a vstd specification (ASSUMED: their std definitions).
+// Declared so that a refactoring that starts using one of them is verified, not rejected.
+pub assume_specification<T: Ord + core::marker::Destruct> [std::cmp::min] (a: T, b: T) -> (r: T)
+    ensures T::obeys_cmp_spec() ==> r == (if b.cmp_spec(&a) == std::cmp::Ordering::Less { b } else { a }),
+;
+pub assume_specification<T: Ord + core::marker::Destruct> [std::cmp::max] (a: T, b: T) -> (r: T)
+    ensures T::obeys_cmp_spec() ==> r == (if b.cmp_spec(&a) == std::cmp::Ordering::Less { a } else { b }),
+;
+pub assume_specification [std::cmp::Ordering::is_lt] (o: std::cmp::Ordering) -> (r: bool)
+    ensures r == (o == std::cmp::Ordering::Less);
+pub assume_specification [std::cmp::Ordering::is_gt] (o: std::cmp::Ordering) -> (r: bool)
+    ensures r == (o == std::cmp::Ordering::Greater);
+pub assume_specification [std::cmp::Ordering::is_le] (o: std::cmp::Ordering) -> (r: bool)
+    ensures r == (o != std::cmp::Ordering::Greater);
+pub assume_specification [std::cmp::Ordering::is_ge] (o: std::cmp::Ordering) -> (r: bool)
+    ensures r == (o != std::cmp::Ordering::Less);
+pub assume_specification<T: core::marker::Destruct> [bool::then_some] (b: bool, t: T) -> (r: Option<T>)
+    ensures r == (if b { Some(t) } else { None::<T> });
+pub assume_specification<T: core::marker::Destruct> [std::option::Option::<T>::xor] (a: Option<T>, b: Option<T>) -> (r: Option<T>)
+    ensures r == (match (a, b) { (Some(x), None) => Some(x), (None, Some(y)) => Some(y), _ => None::<T> });
+pub assume_specification<'a, T: Copy> [std::option::Option::<&T>::copied] (o: Option<&'a T>) -> (r: Option<T>)
+    ensures r == (match o { Some(x) => Some(*x), None => None::<T> });
+pub assume_specification<T: core::marker::Destruct> [std::option::Option::<T>::or] (a: Option<T>, b: Option<T>) -> (r: Option<T>)
+    ensures r == (if a is Some { a } else { b });
+pub assume_specification<T: core::marker::Destruct, U: core::marker::Destruct> [std::option::Option::<T>::and] (a: Option<T>, b: Option<U>) -> (r: Option<U>)
+    ensures r == (if a is Some { b } else { None::<U> });
+pub assume_specification<T: core::marker::Destruct, U: core::marker::Destruct> [std::option::Option::<T>::zip] (a: Option<T>, b: Option<U>) -> (r: Option<(T, U)>)
+    ensures r == (match (a, b) { (Some(x), Some(y)) => Some((x, y)), _ => None::<(T, U)> });
+pub assume_specification<T, F: FnOnce(T) -> bool + core::marker::Destruct> [std::option::Option::<T>::is_some_and] (o: Option<T>, f: F) -> (r: bool)
+    requires o matches Some(x) ==> f.requires((x,)),
+    ensures match o { Some(x) => f.ensures((x,), r), None => !r };
+pub assume_specification<T, F: FnOnce(T) -> bool + core::marker::Destruct> [std::option::Option::<T>::is_none_or] (o: Option<T>, f: F) -> (r: bool)
+    requires o matches Some(x) ==> f.requires((x,)),
+    ensures match o { Some(x) => f.ensures((x,), r), None => r };
+pub assume_specification<T: core::marker::Destruct, P: FnOnce(&T) -> bool + core::marker::Destruct> [std::option::Option::<T>::filter] (o: Option<T>, p: P) -> (r: Option<T>)
+    requires o matches Some(x) ==> p.requires((&x,)),
+    ensures match o { Some(x) => (r == Some(x) && p.ensures((&x,), true)) || (r is None && p.ensures((&x,), false)), None => r is None };
+pub assume_specification<T: core::marker::Destruct, F: FnOnce() -> Option<T> + core::marker::Destruct> [std::option::Option::<T>::or_else] (o: Option<T>, f: F) -> (r: Option<T>)
+    requires o is None ==> f.requires(()),
+    ensures match o { Some(x) => r == o, None => f.ensures((), r) };
+pub assume_specification<T, U: core::marker::Destruct, F: FnOnce(T) -> U + core::marker::Destruct> [std::option::Option::<T>::map_or] (o: Option<T>, d: U, f: F) -> (r: U)
+    requires o matches Some(x) ==> f.requires((x,)),
+    ensures match o { Some(x) => f.ensures((x,), r), None => r == d };
+pub assume_specification<T, U, D: FnOnce() -> U + core::marker::Destruct, F: FnOnce(T) -> U + core::marker::Destruct> [std::option::Option::<T>::map_or_else] (o: Option<T>, d: D, f: F) -> (r: U)
+    requires o matches Some(x) ==> f.requires((x,)), o is None ==> d.requires(()),
+    ensures match o { Some(x) => f.ensures((x,), r), None => d.ensures((), r) };
+pub assume_specification<T: core::marker::Destruct, E: core::marker::Destruct> [std::result::Result::<T, E>::unwrap_or] (x: Result<T, E>, d: T) -> (r: T)
+    ensures r == (match x { Ok(v) => v, Err(_) => d });
+pub assume_specification<T, E: core::marker::Destruct, F: core::marker::Destruct> [std::result::Result::<T, E>::or] (a: Result<T, E>, b: Result<T, F>) -> (r: Result<T, F>)
+    ensures match a { Ok(v) => r == Ok::<T, F>(v), Err(_) => r == b };
+pub assume_specification<T, E, U, F: FnOnce(T) -> Result<U, E> + core::marker::Destruct> [std::result::Result::<T, E>::and_then] (x: Result<T, E>, f: F) -> (r: Result<U, E>)
+    requires x matches Ok(v) ==> f.requires((v,)),
+    ensures match x { Ok(v) => f.ensures((v,), r), Err(e) => r == Err::<U, E>(e) };
+pub assume_specification<T, E: core::marker::Destruct, F: FnOnce(T) -> bool + core::marker::Destruct> [std::result::Result::<T, E>::is_ok_and] (x: Result<T, E>, f: F) -> (r: bool)
+    requires x matches Ok(v) ==> f.requires((v,)),
+    ensures match x { Ok(v) => f.ensures((v,), r), Err(_) => !r };
+pub assume_specification<T, E, F: FnOnce(E) -> T + core::marker::Destruct> [std::result::Result::<T, E>::unwrap_or_else] (x: Result<T, E>, f: F) -> (r: T)
+    requires x matches Err(e) ==> f.requires((e,)),
+    ensures match x { Ok(v) => r == v, Err(e) => f.ensures((e,), r) };
+pub assume_specification<T> [std::mem::replace] (dest: &mut T, src: T) -> (r: T)
+    ensures r == *old(dest), *final(dest) == src;
+pub assume_specification [<std::cmp::Ordering as PartialEq>::eq] (a: &std::cmp::Ordering, b: &std::cmp::Ordering) -> (r: bool)
+    ensures r == (*a == *b);
